@@ -441,6 +441,86 @@ func runAfterClose(c *Case) *verdict {
 	return try("Close", "hang/close", "a second Close did not return", func() *verdict { _ = target.Close(); return nil })
 }
 
+// ---- senderror: a Send that fails by itself (a packet that cannot be encoded) ends the connection
+//
+// Senders: 0 = flushed, 1 = buffered send of the bad packet.
+func runSendError(c *Case) *verdict {
+	l, err := pair(c.Carrier, nil)
+	if err != nil {
+		return vf("harness/pair", "%v", err)
+	}
+	defer l.done()
+	delay := time.Duration(c.DelayMs) * time.Millisecond
+	l.s.SetMaxWriteDelay(delay)
+	pub := func(n int) packet.Generic {
+		p := packet.NewPublish()
+		p.Message.Topic, p.Message.Payload = "c19", payload(0, n, 40)
+		return p
+	}
+	// a pending Receive on the failing side, and the peer reading
+	pending := make(chan error, 1)
+	go func() { _, err := l.s.Receive(); pending <- err }()
+	peerGot := make(chan packet.Generic, 8)
+	peerEnd := make(chan struct{})
+	go func() {
+		defer close(peerEnd)
+		for {
+			g, err := l.r.Receive()
+			if err != nil {
+				return
+			}
+			peerGot <- g
+		}
+	}()
+	if err := l.s.Send(pub(0), false); err != nil {
+		return vf("harness/senderror", "first send failed: %v", err)
+	}
+	bad := packet.NewConnack()
+	bad.ReturnCode = 11 // not encodable
+	how := map[int]string{0: "flushed", 1: "buffered"}[c.Senders]
+	if v := try("Send", "hang/send", "Send of an unencodable packet did not return", func() *verdict {
+		if err := l.s.Send(bad, c.Senders == 1); err == nil {
+			return vf("senderror/accepted", "a %s Send of a CONNACK with return code 11 returned nil", how)
+		}
+		return nil
+	}); v != nil {
+		return v
+	}
+	if v := try("Send", "hang/send", "Send after a send error did not return", func() *verdict {
+		if err := l.s.Send(pub(1), false); err == nil {
+			return vf("senderror/later-send-accepted", "after a %s Send had failed (unencodable packet) a flushed Send on the same connection (%s) returned nil", how, c.Carrier)
+		}
+		return nil
+	}); v != nil {
+		return v
+	}
+	select {
+	case err := <-pending:
+		if err == nil {
+			return vf("senderror/receive-succeeds", "the pending Receive returned a packet nobody sent")
+		}
+	case <-time.After(ev.Ceiling()):
+		return vf("hang/receive", "a %s Send failed (unencodable packet) but the pending Receive on that connection (%s) was not released", how, c.Carrier)
+	}
+	select {
+	case <-peerEnd:
+	case <-time.After(ev.Ceiling()):
+		return vf("senderror/peer-not-notified", "a %s Send failed (unencodable packet): the peer (%s) still waits for data, the connection was not ended", how, c.Carrier)
+	}
+	close(peerGot)
+	n := 0
+	for g := range peerGot {
+		n++
+		if g.Type() != packet.PUBLISH {
+			return vf("flow/foreign-packet", "the peer received a %s", g.Type())
+		}
+	}
+	if n != 1 {
+		return vf("senderror/delivery", "the peer received %d packets; exactly the one sent before the failure was expected", n)
+	}
+	return try("Close", "hang/close", "Close after a send error did not return", func() *verdict { _ = l.s.Close(); return nil })
+}
+
 // ---- timeout: an expired read timeout ends Receive and the connection
 
 func runTimeout(c *Case) *verdict {
@@ -644,6 +724,8 @@ func runCase(c *Case) *verdict {
 		return runTimeout(c)
 	case "unblock":
 		return runUnblock(c)
+	case "senderror":
+		return runSendError(c)
 	case "stall":
 		if c.Carrier != "mem" && c.Carrier != "" {
 			return runStallSocket(c)
@@ -695,7 +777,7 @@ func flowBytes(c *Case) int {
 
 func TestC19(t *testing.T) {
 	run := ev.Start("C19", "fault_enumeration")
-	run.Rule("(flow) 1-16 goroutines send numbered, self-checking PUBLISH packets (1 B - 20 KiB, generated async flags, flush delay 0/1/5/50 ms) on one BaseConn over the in-memory carrier (optional read re-chunking), a socket-like net.Pipe, TCP loopback (NetConn) and WebSocket loopback (WebSocketConn); Close is called by another goroutine after a generated number of sends or after all; on the in-memory carrier every run is repeated with the k-th carrier operation (Read/Write/Close/SetReadDeadline) failing, for EVERY k (up to the operation count of the fault-free run, at most 150 per side) on the sender side and on the receiver side. Oracle: every decoded packet is intact, per sender in order, never duplicated; every packet whose Send returned nil before Close was called is received before the end of the stream; every call returns within 10 s. (afterclose / timeout / unblock / stall) after Close, after the peer closed, after an expired read timeout: a flushed Send fails at once, buffered Sends fail once the flush delay has elapsed, Receive fails, a second Close returns, nothing panics or blocks; Close unblocks a pending Receive; a Receive that fails (read timeout; garbage or a packet above the read limit) while a Send is stuck in the carrier because the peer stopped reading (socket buffers full on TCP / WebSocket loopback) returns, releases that Send, and every later call fails at once - on all four carriers. non-trivial = >= 2 senders with a packet above 4096 bytes, a Close while sends are in progress, or a carrier fault; distinct by case")
+	run.Rule("(flow) 1-16 goroutines send numbered, self-checking PUBLISH packets (1 B - 20 KiB, generated async flags, flush delay 0/1/5/50 ms) on one BaseConn over the in-memory carrier (optional read re-chunking), a socket-like net.Pipe, TCP loopback (NetConn) and WebSocket loopback (WebSocketConn); Close is called by another goroutine after a generated number of sends or after all; on the in-memory carrier every run is repeated with the k-th carrier operation (Read/Write/Close/SetReadDeadline) failing, for EVERY k (up to the operation count of the fault-free run, at most 150 per side) on the sender side and on the receiver side. Oracle: every decoded packet is intact, per sender in order, never duplicated; every packet whose Send returned nil before Close was called is received before the end of the stream; every call returns within 10 s. (afterclose / senderror / timeout / unblock / stall) after Close, after the peer closed, after a flushed or buffered Send that failed by itself (unencodable packet), after an expired read timeout: a flushed Send fails at once, buffered Sends fail once the flush delay has elapsed, Receive fails, a second Close returns, nothing panics or blocks; Close unblocks a pending Receive; a Receive that fails (read timeout; garbage or a packet above the read limit) while a Send is stuck in the carrier because the peer stopped reading (socket buffers full on TCP / WebSocket loopback) returns, releases that Send, and every later call fails at once - on all four carriers. non-trivial = >= 2 senders with a packet above 4096 bytes, a Close while sends are in progress, or a carrier fault; distinct by case")
 	run.Assume("net.Pipe is wrapped so that SetReadDeadline keeps working after the peer closed, as on a socket (BaseConn gives up a decoded packet when resetting the deadline fails)", "schedules of the concurrent senders are sampled under the race detector")
 	defer run.Finish(t)
 	faultRuns := 0
@@ -733,6 +815,14 @@ func TestC19(t *testing.T) {
 					}
 				}
 			}
+			for _, how := range []int{0, 1} {
+				for _, d := range []int{0, 5} {
+					c := &Case{Kind: "senderror", Carrier: car, Senders: how, DelayMs: d}
+					if v := exec(c); v != nil {
+						run.Violation(v.sig+":"+car, v.msg, c)
+					}
+				}
+			}
 			for _, k := range []string{"timeout", "unblock"} {
 				c := &Case{Kind: k, Carrier: car, DelayMs: 2}
 				if v := exec(c); v != nil {
@@ -748,7 +838,7 @@ func TestC19(t *testing.T) {
 				}
 			}
 		}
-		run.Exhaustive("after-close / peer-closed / read-timeout / unblock behaviour on each of the 4 carriers; stall (a Send stuck because the peer does not read) ended by a read timeout and by a decode / read-limit error, on each of the 4 carriers")
+		run.Exhaustive("after-close / peer-closed / send-error (flushed and buffered) / read-timeout / unblock behaviour on each of the 4 carriers; stall (a Send stuck because the peer does not read) ended by a read timeout and by a decode / read-limit error, on each of the 4 carriers")
 	}
 	run.Rapid(t, "flow", ev.Pick(250, 12000), func(rt *rapid.T) {
 		c := genFlow(rt)
